@@ -219,12 +219,9 @@ theorem group_undone_as_one (h : Nat) (rule : Bool → Bool) (hr0 : rule false =
   refine ⟨by rw [hundo], by rw [hundo, hr], ?_⟩
   exact (redo_undo k1.st (by rw [hundo]; exact fun e => hne e.symm)).1
 
-/-- **typing_then_undo.**  The everyday instance: after anything that was not self-insert, type ANY
-    non-empty string character by character through a handler with the `if_no_repeat` rule; ONE
-    undo restores exactly the text and cursor from before the first character. -/
-theorem typing_then_undo (h : Nat) (rule : Bool → Bool) (hr0 : rule false = true)
-    (hr1 : rule true = false) (k0 : KSt) (hp : k0.prev ≠ some h) (c : Char) (cs : List Char) :
-    (undo (runSame h rule ((c :: cs).map fun ch => insertText [ch]) k0).st).buf = k0.st.buf := by
+/-- typing a non-empty string changes the text (it gets longer) -/
+theorem runSame_typing_text_ne (h : Nat) (rule : Bool → Bool) (k0 : KSt) (c : Char) (cs : List Char) :
+    (runSame h rule ((c :: cs).map fun ch => insertText [ch]) k0).st.buf.text ≠ k0.st.buf.text := by
   have hlen : ∀ (fs : List Char) (k : KSt),
       (runSame h rule (fs.map fun ch => insertText [ch]) k).st.buf.text.length =
         k.st.buf.text.length + fs.length := by
@@ -242,12 +239,19 @@ theorem typing_then_undo (h : Nat) (rule : Bool → Bool) (hr0 : rule false = tr
       have := ih (callHandler h rule [Act.edit (insertText [x])] k)
       simp only [runSame] at this
       rw [this, hstep, List.length_cons]; omega
-  have hne : (runSame h rule ((c :: cs).map fun ch => insertText [ch]) k0).st.buf.text ≠ k0.st.buf.text := by
-    intro e
-    have := hlen (c :: cs) k0
-    rw [e] at this
-    simp at this
-  exact (group_undone_as_one h rule hr0 hr1 k0 hp (insertText [c]) (cs.map fun ch => insertText [ch]) hne).1
+  intro e
+  have := hlen (c :: cs) k0
+  rw [e] at this
+  simp at this
+
+/-- **typing_then_undo.**  The everyday instance: after anything that was not self-insert, type ANY
+    non-empty string character by character through a handler with the `if_no_repeat` rule; ONE
+    undo restores exactly the text and cursor from before the first character. -/
+theorem typing_then_undo (h : Nat) (rule : Bool → Bool) (hr0 : rule false = true)
+    (hr1 : rule true = false) (k0 : KSt) (hp : k0.prev ≠ some h) (c : Char) (cs : List Char) :
+    (undo (runSame h rule ((c :: cs).map fun ch => insertText [ch]) k0).st).buf = k0.st.buf :=
+  (group_undone_as_one h rule hr0 hr1 k0 hp (insertText [c]) (cs.map fun ch => insertText [ch])
+    (runSame_typing_text_ne h rule k0 c cs)).1
 
 /-- commands that keep the text (cursor motions, Escape, mode switches, …): any handlers, any rules -/
 def runKeep (ms : List (Nat × (Bool → Bool) × (Buf → Buf))) (k : KSt) : KSt :=
@@ -552,7 +556,142 @@ theorem emacs_typing_then_undo (keys : List EKey) (b0 : Buf) (c : Char) (cs : Li
   rw [he, hrun]
   exact typing_then_undo 0 (fun rep => !rep) rfl rfl _ hp c cs
 
-/-! ## 8. Non-vacuity: the hypotheses above are satisfiable on concrete, non-trivial sessions -/
+/-! ## 8. The shipped Vi bindings: hypothesis-free instances
+
+    `VKey` / `vkey` (Model): keys {i, a, x, u, Escape, redo} with the Vi input mode; in insert mode
+    the letters are typed through the self-insert binding (`if_no_repeat`).  Tied to the real
+    `PromptSession(editing_mode=VI)` key by key by the correspondence. -/
+
+def vRule : Nat → Bool → Bool := fun h rep =>
+  if h = 0 then !rep else if h = 10 then false else if h = 24 then false else true
+
+def vIsEdit : Nat → Bool := fun h => !(h == 10 || h == 24)
+
+def vcmd (ins : Bool) (key : VKey) : Cmd :=
+  if ins then
+    match key with
+    | .escape => ⟨20, .edit fun b => viFix (leftInLine b)⟩
+    | .redo => ⟨10, .redo id⟩
+    | key => ⟨0, .edit (insertText [key.letter])⟩
+  else
+    match key with
+    | .i => ⟨21, .edit id⟩
+    | .a => ⟨22, .edit rightInLine⟩
+    | .x => ⟨23, .edit fun b => viFix (viX b)⟩
+    | .u => ⟨24, .undo 1 viFix⟩
+    | .escape => ⟨20, .edit viFix⟩
+    | .redo => ⟨10, .redo viFix⟩
+
+def vmode (ins : Bool) (key : VKey) : Bool :=
+  if ins then key != .escape else (key == .i || key == .a)
+
+theorem vkey_eq (v : VSt) (key : VKey) :
+    vkey v key = { k := stepK vRule v.k (vcmd v.ins key), ins := vmode v.ins key } := by
+  obtain ⟨k, ins⟩ := v
+  cases ins <;> cases key <;> rfl
+
+def vRun (keys : List VKey) (v : VSt) : VSt := keys.foldl vkey v
+
+/-- the commands a key sequence turns into, starting in the given mode -/
+def vcmds : Bool → List VKey → List Cmd
+  | _, [] => []
+  | ins, key :: ks => vcmd ins key :: vcmds (vmode ins key) ks
+
+theorem vRun_k (keys : List VKey) (v : VSt) :
+    (vRun keys v).k = runK vRule (vcmds v.ins keys) v.k := by
+  induction keys generalizing v with
+  | nil => rfl
+  | cons ky xs ih =>
+    simp only [vRun, List.foldl_cons, vcmds, runK] at *
+    rw [ih (vkey v ky), vkey_eq]
+
+theorem vWF (ins : Bool) (keys : List VKey) : WF vRule vIsEdit (vcmds ins keys) where
+  saves := by
+    intro h hh
+    simp only [vIsEdit, Bool.not_eq_true', Bool.or_eq_false_iff, beq_eq_false_iff_ne] at hh
+    unfold vRule
+    by_cases h0 : h = 0 <;> simp [h0, hh.1, hh.2]
+  kind := by
+    intro c hc
+    induction keys generalizing ins with
+    | nil => simp [vcmds] at hc
+    | cons ky xs ih =>
+      simp only [vcmds, List.mem_cons] at hc
+      rcases hc with rfl | hc
+      · cases ins <;> cases ky <;> rfl
+      · exact ih _ hc
+  post := by
+    intro c hc
+    induction keys generalizing ins with
+    | nil => simp [vcmds] at hc
+    | cons ky xs ih =>
+      simp only [vcmds, List.mem_cons] at hc
+      rcases hc with rfl | hc
+      · cases ins <;> cases ky <;> first | exact trivial | exact viFix_text | exact fun _ => rfl
+      · exact ih _ hc
+
+/-- **vi_undo_reaches_initial.**  For EVERY sequence of these Vi keys from EVERY initial document:
+    undoing at least as often as the stack is high ends on the initial text. -/
+theorem vi_undo_reaches_initial (keys : List VKey) (b0 : Buf) (n : Nat)
+    (hn : (vRun keys (vInit b0)).k.st.undo.length ≤ n) :
+    (undoN n (vRun keys (vInit b0)).k.st).buf.text = b0.text := by
+  rw [vRun_k] at hn ⊢
+  exact (undo_reaches_initial vRule vIsEdit _ b0 (vWF true keys) n hn).1
+
+/-- **vi_redo_empty_after_edit.**  For every Vi key sequence: whenever the last handler was not
+    undo / redo, the redo stack is empty. -/
+theorem vi_redo_empty_after_edit (keys : List VKey) (b0 : Buf) (h : Nat)
+    (hp : (vRun keys (vInit b0)).k.prev = some h) (h10 : h ≠ 10) (h24 : h ≠ 24) :
+    (vRun keys (vInit b0)).k.st.redo = [] := by
+  rw [vRun_k] at hp ⊢
+  have hI := sinv_run vRule vIsEdit b0.text (vcmds true keys) (kInit b0) (vWF true keys) (sinv_init vIsEdit b0)
+  exact (hI.2 h hp (by simp [vIsEdit, h10, h24])).2
+
+/-- **vi_insert_escape_u.**  From ANY navigation-mode state: `i`, then any non-empty sequence of
+    typed letters, then Escape, then `u` — the buffer is back at the (text, cursor) it had before
+    `i` (up to the navigation-mode cursor fix): the whole insert is ONE undo step, as in Vim. -/
+theorem vi_insert_escape_u (v : VSt) (hnav : v.ins = false) (c : VKey) (cs : List VKey)
+    (hl : ∀ ky ∈ c :: cs, ky ≠ .escape ∧ ky ≠ .redo) :
+    (vRun ([.i] ++ (c :: cs) ++ [.escape, .u]) v).k.st.buf = viFix v.k.st.buf := by
+  obtain ⟨k, ins⟩ := v
+  simp only at hnav
+  subst hnav
+  -- after `i`
+  let k0 : KSt := callHandler 21 (fun _ => true) [] k
+  have hk0b : k0.st.buf = k.st.buf := by simp [k0, callHandler_eq, boundary_buf]
+  have hk0p : k0.prev ≠ some 0 := by simp [k0, callHandler_eq]
+  -- typed letters = a run of the self-insert handler
+  have hrun : ∀ (l : List VKey) (k' : KSt), (∀ ky ∈ l, ky ≠ .escape ∧ ky ≠ .redo) →
+      vRun l { k := k', ins := true } =
+        { k := runSame 0 (fun rep => !rep) ((l.map VKey.letter).map fun ch => insertText [ch]) k', ins := true } := by
+    intro l
+    induction l with
+    | nil => intro k' _; rfl
+    | cons ky xs ih =>
+      intro k' hx
+      have hx1 := hx ky (by simp)
+      have hstep : vkey { k := k', ins := true } ky =
+          { k := callHandler 0 (fun rep => !rep) [Act.edit (insertText [ky.letter])] k', ins := true } := by
+        cases ky <;> first | rfl | exact absurd rfl hx1.1 | exact absurd rfl hx1.2
+      simp only [vRun, List.foldl_cons, List.map_cons, runSame] at *
+      rw [hstep]
+      exact ih _ (fun y hy => hx y (List.mem_cons_of_mem _ hy))
+  have h1 : vRun ([.i] ++ (c :: cs) ++ [.escape, .u]) { k := k, ins := false } =
+      vkey (vkey (vRun (c :: cs) { k := k0, ins := true }) .escape) .u := by
+    simp only [vRun, List.foldl_append, List.foldl_cons, List.foldl_nil]
+    rfl
+  rw [h1, hrun (c :: cs) k0 hl]
+  have hne := runSame_typing_text_ne 0 (fun rep => !rep) k0 c.letter (cs.map VKey.letter)
+  have hg := group_then_motions_then_undo 0 (fun rep => !rep) rfl rfl k0 hk0p (insertText [c.letter])
+    ((cs.map VKey.letter).map fun ch => insertText [ch])
+    [(20, (fun _ => true), fun b => viFix (leftInLine b))]
+    (by intro m hm b; simp at hm; subst hm; simp [viFix_text, leftInLine, setCursor])
+    (by simpa using hne)
+  simp only [List.map_cons] at hg ⊢
+  rw [← hk0b, ← hg]
+  rfl
+
+/-! ## 9. Non-vacuity: the hypotheses above are satisfiable on concrete, non-trivial sessions -/
 
 section Examples
 
@@ -640,6 +779,27 @@ example :
     (undo (runSame 0 (fun rep => !rep) (['a', 'b', 'c'].map fun ch => insertText [ch]) k0).st).buf = exB0 ∧
     (runSame 0 (fun rep => !rep) (['a', 'b', 'c'].map fun ch => insertText [ch]) k0).st.buf =
       { text := ['x', 'a', 'b', 'c', 'y'], cur := 4 } := by
+  decide
+
+/-- emacs_typing_then_undo: its side condition holds for a key sequence ending in Left;
+    emacs_edit_discards_redo: there is a non-empty redo stack for C-k to discard -/
+example :
+    (∀ k ∈ ([EKey.char 'a', .left] : List EKey).getLast?, ∀ ch, k ≠ .char ch) ∧
+    (eRun [.char 'a', .char 'b', .left, .char 'c', .undo] (kInit exB0)).st.redo ≠ [] ∧
+    (eRun [.char 'a', .char 'b', .left, .char 'c', .undo, .killLine] (kInit exB0)).st.redo = [] := by
+  refine ⟨?_, by decide, by decide⟩
+  intro k hk ch
+  simp at hk
+  subst hk
+  simp
+
+/-- vi_insert_escape_u on a concrete navigation-mode state: `i x u Esc u` returns to it, while the
+    typed text really had changed the buffer -/
+example :
+    let v := vRun [.a, .escape] (vInit exB0)
+    v.ins = false ∧
+    (vRun ([.i] ++ [.x, .u] ++ [.escape, .u]) v).k.st.buf = viFix v.k.st.buf ∧
+    (vRun [.i, .x, .u] v).k.st.buf ≠ v.k.st.buf := by
   decide
 
 /-- snapshots_valid: the concrete edits used here keep documents valid -/
